@@ -53,8 +53,9 @@ def prepare(repo, only_files=None):
 def _base_cmd():
     return ["cargo", "kani", "-p", "abyssiniandb", "-Z", "function-contracts", "-Z", "stubbing", "--output-format", "terse"]
 
+_MEM_KB = [None]
 def _guard(cmd):
-    memkb = int(os.environ.get("VERIF_KANI_MEM_KB", str(10 * 1024 * 1024)))
+    memkb = _MEM_KB[0] or int(os.environ.get("VERIF_KANI_MEM_KB", str(10 * 1024 * 1024)))
     return ["sh", "-c", "ulimit -v %d; exec \"$@\"" % memkb, "sh"] + cmd
 
 def playback(scratch, env, harness, budget=600):
@@ -109,10 +110,11 @@ def replay_test(repo, module_file, test_text):
     finally:
         shutil.rmtree(scratch, ignore_errors=True)
 
-def run(repo, harnesses, only_files=None, timeout=1800, jobs=8, extra_args=None, want_playback=None, harness_timeout=None):
+def run(repo, harnesses, only_files=None, timeout=1800, jobs=8, extra_args=None, want_playback=None, harness_timeout=None, mem_kb=None):
     """harnesses: list of harness function names. Returns dict name -> {status, time_s, detail}, plus '_log'."""
     res = {}
     t0 = time.time()
+    _MEM_KB[0] = mem_kb
     try:
         scratch, injected = prepare(repo, only_files)
     except LookupError as e:
@@ -161,6 +163,9 @@ def run(repo, harnesses, only_files=None, timeout=1800, jobs=8, extra_args=None,
         for h in harnesses:
             if h not in res:
                 res[h] = {"status": "MISSING"}
+            elif res[h].get("status") == "FAILED" and res[h].get("failed_checks", None) == 0:
+                # "0 of N failed" but FAILED: CBMC did not finish (address-space limit, timeout, crash) — not a property failure
+                res[h]["status"] = "ABORTED"
         fails = re.findall(r"Failed Checks: (.*)", out)
         res["_failed_checks"] = fails
         # counterexamples of failed harnesses, replayed natively on the real code (at most 3, time-boxed)
